@@ -67,6 +67,9 @@ struct TxSubject {
 
 impl TxSubject {
     fn open_coord(dir: &str) -> Result<DistributedTxCoordinator, String> {
+        // every (re)started coordinator begins at the base time: restored transactions get fresh start
+        // times anyway, and the virtual clock must not accumulate hours over millions of images
+        env::clock_reset();
         let wal = TxWal::open(format!("{dir}/tx.wal")).map_err(|e| format!("TxWal::open: {e}"))?;
         let mut cfg = DistributedTxConfig::default();
         cfg.prepare_timeout_ms = 60_000; // never fires by itself: the clock is frozen
